@@ -2,7 +2,10 @@ module verifmc
 
 go 1.23
 
-require github.com/LemoFoundationLtd/lemochain-core v0.0.0
+require (
+	github.com/LemoFoundationLtd/lemochain-core v0.0.0
+	github.com/syndtr/goleveldb v0.0.0-20180708030551-c4c61651e9e3
+)
 
 require (
 	github.com/aristanetworks/goarista v0.0.0-20170210015632-ea17b1a17847 // indirect
@@ -12,9 +15,11 @@ require (
 	github.com/mattn/go-colorable v0.1.4 // indirect
 	github.com/mattn/go-isatty v0.0.11 // indirect
 	github.com/rcrowley/go-metrics v0.0.0-20200313005456-10cdbea86bc0 // indirect
-	github.com/syndtr/goleveldb v0.0.0-20180708030551-c4c61651e9e3 // indirect
+	github.com/rs/cors v1.5.1-0.20180731071213-15587285ef6b // indirect
 	golang.org/x/crypto v0.0.0-20200728195943-123391ffb6de // indirect
+	golang.org/x/net v0.0.0-20200707034311-ab3426394381 // indirect
 	golang.org/x/sys v0.0.0-20200808120158-1030fc2bf1d9 // indirect
+	gopkg.in/fatih/set.v0 v0.2.1 // indirect
 	gopkg.in/karalabe/cookiejar.v2 v2.0.0-20150724131613-8dcd6a7f4951 // indirect
 	gopkg.in/urfave/cli.v1 v1.20.0 // indirect
 )
